@@ -360,6 +360,7 @@ func sortedKeys[V any](m map[string]V) []string {
 // expandAddr expands define-fun names at the address-forming positions of a Ref term, so that the shape
 // of the address (Fld/Elem/Obj layers) is visible to the loop write-set classification.
 func (s *Script) expandAddr(t string) string {
+	t = s.expandLoads(t, 0)
 	for i := 0; i < 20; i++ {
 		if d, ok := s.defs[t]; ok && (strings.HasPrefix(d, "(Fld ") || strings.HasPrefix(d, "(Elem ") || strings.HasPrefix(d, "(Obj ") || strings.HasPrefix(d, "(iref ")) {
 			t = d
@@ -386,6 +387,42 @@ func (s *Script) expandAddr(t string) string {
 		}
 	}
 	return t
+}
+
+// expandLoads replaces, inside an address term, names defined as plain loads "(select H a)" or as address
+// constructors by their definitions, so that an address computed from unchanged memory inside a loop body is
+// recognised as independent of the iteration (the names of heaps that did change stay and mark it as dependent).
+func (s *Script) expandLoads(t string, depth int) string {
+	if depth > 12 || len(t) > 4000 {
+		return t
+	}
+	var b strings.Builder
+	i := 0
+	changed := false
+	for i < len(t) {
+		c := t[i]
+		if c == '(' || c == ')' || c == ' ' {
+			b.WriteByte(c)
+			i++
+			continue
+		}
+		j := i
+		for j < len(t) && t[j] != '(' && t[j] != ')' && t[j] != ' ' {
+			j++
+		}
+		tok := t[i:j]
+		if d, ok := s.defs[tok]; ok && (strings.HasPrefix(d, "(select H_") || strings.HasPrefix(d, "(Fld ") || strings.HasPrefix(d, "(Elem ") || strings.HasPrefix(d, "(Obj ")) && len(d) < 600 {
+			b.WriteString(d)
+			changed = true
+		} else {
+			b.WriteString(tok)
+		}
+		i = j
+	}
+	if !changed {
+		return t
+	}
+	return s.expandLoads(b.String(), depth+1)
 }
 
 // patternUnsafe reports whether term t, with define-funs expanded, contains a connective z3 rejects in patterns.
